@@ -171,7 +171,11 @@ impl Block {
 
 const NO_FIRST: usize = 999;
 const STRUCT_N: [usize; 5] = [6, 12, 25, 50, 100];
-const LAYOUTS: [&str; 3] = ["cyclic", "separable", "noisy"];
+/// "one-/two-contradicting": the separable labelling with exactly one / two samples carrying the
+/// next class's label (nearly separable data, round 5)
+/// "clusters-m": k tight, well separated clusters (class = i mod k) of which the first m samples carry
+/// the next cluster's label
+const LAYOUTS: [&str; 8] = ["cyclic", "separable", "noisy", "one-contradicting", "two-contradicting", "clusters-0", "clusters-1", "clusters-2"];
 /// round 2, two classes only: n - m samples of class 0 and m = 1..3 of class 1 — the m samples with
 /// the largest projection t ("lopsided-extreme": separable) or the m samples at the median of t
 /// ("lopsided-interior": overlapping, the minority is misclassified at the optimum). With n >= 58
@@ -209,7 +213,7 @@ pub fn plan(t: bool, seed: u64, jobs: &mut Vec<Job>) {
     }
     for &n in sat_struct_n(t) {
         for p in 1..=6usize {
-            for (li, l) in LAYOUTS.iter().enumerate() {
+            for (li, l) in LAYOUTS.iter().enumerate().take(3) {
                 jobs.push(Job::new(format!("saturated-formula-n{}-p{}-k2-{}", n, p, l), json!({"kind": "structured", "n": n, "p": p, "k": 2, "layout": li, "seed": seed, "sat": true, "thorough": t})));
             }
         }
@@ -285,7 +289,7 @@ pub fn bounds(t: bool, seed: u64) -> Value {
             "maps": sat_maps(t).iter().map(|m| format!("{:?}", MAPS[*m])).collect::<Vec<_>>(),
             "alphas": SAT_ALPHAS.iter().map(|a| ALPHAS[*a]).collect::<Vec<_>>(),
             "lattice": "the blocks above whose (map,alpha,label_table) use these maps: every multiset of n = 6 letters, p = 1 (x in {0,1,-1,2}) and p = 2 ({0,1}^2), 2 label letters, plain labels (thorough: also the ugly table, n = 8 multisets and every p = 1 sequence of 6 letters)",
-            "formula_sets": format!("the structured family's features with k = 2: n in {:?} x p in 1..6 x layouts {:?} x maps x alphas x 2 label tables", sat_struct_n(t), LAYOUTS),
+            "formula_sets": format!("the structured family's features with k = 2: n in {:?} x p in 1..6 x layouts {:?} x maps x alphas x 2 label tables", sat_struct_n(t), &LAYOUTS[..3]),
             "lopsided_sets": format!("the same features, n in {:?} x p in 1..6: m in 1..{} samples of one class (the m largest projections t = 'lopsided-extreme', separable; the m at the median of t = 'lopsided-interior', overlapping), all others of the other class, both assignments of the two labels, x maps x alphas x 2 label tables; n ln 2 > 40, so an accepted iterate can have a misclassified sample with |score| > 40", lopsided_n(t), lopsided_m(t)),
             "non_vacuity": "scores are recomputed in the harness at the returned parameters and at every point evaluated by a reference run of the real LBFGS + Backtracking(THIRD) on the harness's own objective (counters saturated_*; floors in Plan::floors)",
         },
@@ -330,6 +334,13 @@ pub fn lopsided_data(n: usize, p: usize, layout: usize, m: usize) -> (Vec<Vec<f6
 }
 
 pub fn structured_data(n: usize, p: usize, k: usize, layout: usize) -> (Vec<Vec<f64>>, Vec<usize>) {
+    if LAYOUTS[layout].starts_with("clusters-") {
+        let m: usize = LAYOUTS[layout]["clusters-".len()..].parse().unwrap();
+        const CENTRE: [f64; 4] = [0.0, 6.0, -5.0, 3.0];
+        let raw: Vec<Vec<f64>> = (0..n).map(|i| (0..p).map(|j| CENTRE[(i % k + 2 * j) % 4] + (((i / k) * (2 * j + 3) + j) % 5) as f64 * 0.25 - 0.5).collect()).collect();
+        let letters: Vec<usize> = (0..n).map(|i| if i < m { (i % k + 1) % k } else { i % k }).collect();
+        return (raw, letters);
+    }
     let raw: Vec<Vec<f64>> = (0..n).map(|i| (0..p).map(|j| ((i * (2 * j + 3) + j * j + (i * i) / (j + 1)) % 9) as f64 - 4.0).collect()).collect();
     let t: Vec<i64> = raw.iter().map(|r| r.iter().enumerate().map(|(j, v)| (j as i64 + 1) * (if j % 2 == 0 { 1 } else { -1 }) * (*v as i64)).sum()).collect();
     let mut uniq = t.clone();
@@ -345,6 +356,20 @@ pub fn structured_data(n: usize, p: usize, k: usize, layout: usize) -> (Vec<Vec<
             "separable" => sep(i),
             "noisy" => {
                 if i % 5 == 2 {
+                    (sep(i) + 1) % k
+                } else {
+                    sep(i)
+                }
+            }
+            "one-contradicting" => {
+                if i == n / 2 {
+                    (sep(i) + 1) % k
+                } else {
+                    sep(i)
+                }
+            }
+            "two-contradicting" => {
+                if i == n / 2 || i == n / 3 {
                     (sep(i) + 1) % k
                 } else {
                     sep(i)
